@@ -196,6 +196,15 @@ pub fn cmd(_args: &[String]) {
                     Err(p) => ("panic".to_string(), String::new(), String::new(), panic_message(&p)),
                 }
             }
+            // editor queries (C20) at every `step`-th byte offset
+            "editor" => {
+                let vm = entry.0.clone();
+                let step = job.get("step").and_then(|v| v.as_u64()).unwrap_or(1) as usize;
+                match catch_unwind(AssertUnwindSafe(|| crate::editor::query(&vm, src, step))) {
+                    Ok(v) => ("ok".to_string(), v.to_string(), String::new(), String::new()),
+                    Err(p) => ("panic".to_string(), String::new(), String::new(), panic_message(&p)),
+                }
+            }
             // formatter (C10): the formatted text
             "format" => {
                 let vm = entry.0.clone();
